@@ -42,6 +42,33 @@ type c15 struct {
 	r    *Run
 	pend []c15op
 	pool [][]byte // encodings of generated messages, material for mutations
+	kept []keptEnc // the last few encoder results, re-checked after every later encode
+}
+
+// An encoder result and a private copy of it: what an encoder returns belongs to the caller, a later
+// encode (of another value, or of a whole message) must not change it (pooled or shared scratch buffers).
+type keptEnc struct {
+	what string
+	out  []byte
+	cp   []byte
+}
+
+func (c *c15) keep(what string, out []byte) {
+	for _, k := range c.kept {
+		if !bytes.Equal(k.out, k.cp) {
+			c.r.violation("result of an earlier encode changed when something else was encoded (shared or pooled buffer): "+k.what,
+				map[string]string{"earlier": k.what, "was": hx(k.cp), "now": hx(k.out), "after_encoding": what})
+			c.kept = nil
+			return
+		}
+	}
+	if out == nil {
+		return
+	}
+	c.kept = append(c.kept, keptEnc{what, out, append([]byte{}, out...)})
+	if len(c.kept) > 4 {
+		c.kept = c.kept[1:]
+	}
 }
 
 func (c *c15) emit(op, ans string) { c.pend = append(c.pend, c15op{op, ans, ""}) }
@@ -805,6 +832,9 @@ func (c *c15) msgCase(m krpc.Msg, bad bool) {
 	}
 	rep := map[string]string{"msg": dump}
 	b, err, pan := marshalMsg(m)
+	if pan == nil && err == nil {
+		c.keep("bencode.Marshal(krpc.Msg)", b)
+	}
 	switch {
 	case pan != nil:
 		if !bad {
@@ -1357,6 +1387,7 @@ func (c *c15) codecSweeps() {
 				if p := safely(func() { out, err = a.MarshalBinary() }); p != nil || err != nil || !bytes.Equal(out, b) {
 					r.violation("NodeAddr binary round trip differs", rp)
 				}
+				c.keep("NodeAddr.MarshalBinary", out)
 				var outB []byte
 				if p := safely(func() { outB, err = a.MarshalBencode() }); p != nil || err != nil || !bytes.Equal(outB, bstr(b)) {
 					r.violation("NodeAddr.MarshalBencode is not the bencoded MarshalBinary", rp)
@@ -1408,6 +1439,7 @@ func (c *c15) codecSweeps() {
 				if p := safely(func() { out, err = ni.MarshalBinary() }); p != nil || err != nil || !bytes.Equal(out, b) {
 					r.violation("NodeInfo binary round trip differs", rp)
 				}
+				c.keep("NodeInfo.MarshalBinary", out)
 			default:
 				if n >= 22 {
 					r.violation("NodeInfo.UnmarshalBinary rejects 22 or more bytes", rp)
@@ -1549,6 +1581,10 @@ func (c *c15) codecSweeps() {
 			})
 		}
 		ans := hx(out)
+		if pan == nil {
+			c.keep("compact list MarshalBinary", out)
+			c.keep("compact list MarshalBencode", outB)
+		}
 		switch {
 		case pan != nil:
 			ans = "panic"
